@@ -5,7 +5,14 @@
 // runs filter / join / GROUP BY / ORDER BY / DISTINCT / analytic / DML / file-load workloads through the
 // real processor, in-process, on tables of 200–3000 rows with @@CPU 2…8; the parent reads the race
 // detector's log, normalises every report to the innermost csvq frame of each of the two accesses and
-// records each distinct pair as a failed law `race:<funcA>+<funcB>` (the report is the replay).
+// records each distinct pair as a failed law `race:<funcA>+<funcB>` (the report is the replay).  Laws the child
+// checks itself on the real code (pool probe after a history of failing statements, results after a history,
+// the view of a record unchanged by evaluating an expression for it) come back through child.json.
+//
+// Environment: C13_ONLY=phase,… runs some phases only and C13_TRACE=1 prints statement times (development aids);
+// Two findings of these workloads on the unchanged tree: SET @@flag inside a user-defined function evaluated in
+// parallel (F105, recorded as known; C13_UDF_SETFLAG=0 leaves its workload out) and Header.Copy sharing the Aliases
+// arrays (F106, fixed in /repo 8074f73; C13_ALIAS_SPARE=0 leaves its workload out).  Both run by default.
 package main
 
 import (
@@ -19,6 +26,8 @@ import (
 	"sort"
 	"strconv"
 	"strings"
+	"syscall"
+	"time"
 
 	"verifharness/hc"
 )
@@ -32,6 +41,7 @@ type childStats struct {
 	Errors   map[string]int `json:"errors"`
 	Samples  []string       `json:"samples"`
 	MaxProcs int            `json:"maxprocs"`
+	Laws     []childLaw     `json:"laws"` // laws the workload process checked itself (pool probe, results after a history)
 }
 
 func runC13(seed int64, n int, dir string, args []string) {
@@ -81,6 +91,9 @@ func runC13(seed int64, n int, dir string, args []string) {
 	}
 	o.Samples = append(o.Samples, cs.Samples...)
 	o.Stats["race_detector_on"] = 1
+	for _, l := range cs.Laws {
+		o.Law(l.Law, l.Case)
+	}
 
 	logs, _ := filepath.Glob(logBase + ".*")
 	seen := map[string]bool{}
@@ -229,6 +242,15 @@ func makeTables(g *hc.Gen, repo string, rows int, small int) {
 	writeLines(filepath.Join(repo, "small.csv"), sm)
 }
 
+// cpuMillis: processor time of this process so far (the wall clock of a phase depends on what else the machine does)
+func cpuMillis() int {
+	var ru syscall.Rusage
+	if syscall.Getrusage(syscall.RUSAGE_SELF, &ru) != nil {
+		return 0
+	}
+	return int(ru.Utime.Sec+ru.Stime.Sec)*1000 + int(ru.Utime.Usec+ru.Stime.Usec)/1000
+}
+
 type wl struct {
 	kind string
 	sql  string
@@ -297,11 +319,22 @@ func child(seed int64, n int, dir string) {
 	ws := workloads()
 	bands := [][2]int{{200, 400}, {400, 900}, {900, 1800}, {1800, 3000}}
 	round := 0
-	runLoadMatrix(g, scratch, os.Getenv("VERIF_TIER") == "thorough", &cs, sigs)
-	runCorrelated(g, scratch, os.Getenv("VERIF_TIER") == "thorough", &cs, sigs)
-	runSpecial(g, scratch, os.Getenv("VERIF_TIER") == "thorough", &cs, sigs)
-	runFailingLoads(g, scratch, os.Getenv("VERIF_TIER") == "thorough", &cs, sigs)
-	runFunctionGrid(g, scratch, os.Getenv("VERIF_TIER") == "thorough", &cs, sigs)
+	thorough := os.Getenv("VERIF_TIER") == "thorough"
+	for _, ph := range []struct {
+		name string
+		run  func(*hc.Gen, string, bool, *childStats, map[string]bool)
+	}{
+		{"load_matrix", runLoadMatrix}, {"correlated", runCorrelated}, {"special", runSpecial}, {"failing_loads", runFailingLoads},
+		{"function_grid", runFunctionGrid}, {"failing_histories", runFailingHistories}, {"record_views", runRecordViews}, {"udf_state", runUDFState},
+	} {
+		if only := os.Getenv("C13_ONLY"); only != "" && !strings.Contains(","+only+",", ","+ph.name+",") {
+			continue // development aid: run some phases only
+		}
+		t0, c0 := time.Now(), cpuMillis()
+		ph.run(g, scratch, thorough, &cs, sigs)
+		cs.Kinds["phase_ms:"+ph.name] = int(time.Since(t0) / time.Millisecond)
+		cs.Kinds["phase_cpu_ms:"+ph.name] = cpuMillis() - c0
+	}
 	n += cs.Queries // the matrix comes on top of the n generated statements
 	for cs.Queries < n {
 		repo, err := os.MkdirTemp(scratch, "c13repo-")
